@@ -453,6 +453,14 @@ class StmtMixin(object):
 
     def exec_While(self, node, st):
         k, spec = self.loop_spec(node)
+        names = []
+        for x in ast.walk(node.test):
+            if isinstance(x, ast.Name) and x.id not in names and x.id in st.env:
+                names.append(x.id)
+        names.sort(key=lambda nm: min((y.col_offset for y in ast.walk(node.test) if isinstance(y, ast.Name) and y.id == nm)))
+        self.roles = dict(getattr(self, 'roles', {}))
+        for j, nm in enumerate(names):
+            self.roles['_w%d' % j] = nm           # _w0, _w1, ...: the variables of the loop test, in order of appearance
         if spec is None:
             raise OutsideSubset('loop %d (line %d) has no invariant' % (k, node.lineno))
         for lbl, text in spec.inv.items():
